@@ -48,6 +48,73 @@ proof fn lemma_fts_take(ms: Seq<s::Mapping>, n: int)
   ensures fts(ms).take(n) == fts(ms.take(n))
 { assert(fts(ms).take(n) =~= fts(ms.take(n))); }
 
+/// everything ONE source mapping expands to in the first pass: the (trigger, output) pairs of pairs_of AND the repeat mode / absorbing list of each mapping
+spec fn expands(table: Map<String, Vec<&AliasMapping>>, fm: f::Mapping, ms: Seq<s::Mapping>) -> bool {
+  match fm {
+    f::Mapping::Alias(a) => pairs_of(table, fm, fts(ms)) && forall|i: int| 0 <= i < ms.len() ==> crate::keys::rview((#[trigger] ms[i]).repeat) == crate::keys::RepeatV::Normal && ms[i].absorbing@.len() == 0,
+    f::Mapping::Single(sg) => exists|it: AliasCombinationIterable| #[trigger] it.built(table, sg.from.modifiers@) && fts(ms) == single_pairs(it, all_combos(it.q()), sg) && single_extras(it, all_combos(it.q()), sg, ms),
+    f::Mapping::Row(rm) => match crate::physical_keyboard_layouts::ukl_row(rm.from.row) {
+      Some(row) => exists|it: AliasCombinationIterable| #[trigger] it.built(table, rm.from.modifiers@) && fts(ms) == row_pairs(it, all_combos(it.q()), rm, row) && row_extras(it, rm, row, ms),
+      None => ms.len() == 0 },
+    f::Mapping::RepeatOnlySingle(_) => ms.len() == 0,
+  }
+}
+pub open spec fn flatm(chunks: Seq<Seq<s::Mapping>>) -> Seq<s::Mapping>
+  decreases chunks.len()
+{ if chunks.len() == 0 { Seq::empty() } else { flatm(chunks.drop_last()) + chunks.last() } }
+/// C13, the whole converter: the first pass expands every source mapping in source order (mchunks); then the repeat-only pass goes through the source
+/// mappings in source order again (stages), each repeat-only entry acting (ar_rel) on the mappings of the first pass: n = their number
+spec fn full_w(f: f::Layout, l: s::Layout, table: Map<String, Vec<&AliasMapping>>, mchunks: Seq<Seq<s::Mapping>>, stages: Seq<Seq<crate::keys::MappingV>>) -> bool {
+  table_for(table, f.mappings@, f.mappings@.len() as int)
+  && mchunks.len() == f.mappings@.len() && (forall|i: int| 0 <= i < mchunks.len() ==> expands(table, f.mappings@[i], #[trigger] mchunks[i]))
+  && stages.len() == f.mappings@.len() + 1 && stages[0] == mvs(flatm(mchunks))
+  && (forall|i: int| 0 <= i < f.mappings@.len() ==> ar_rel(table, f.mappings@[i], flatm(mchunks).len() as int, #[trigger] stages[i], stages[i + 1]))
+  && stages.last() == mvs(l.mappings@)
+}
+pub closed spec fn convert_full(f: f::Layout, l: s::Layout) -> bool {
+  exists|table: Map<String, Vec<&AliasMapping>>, mchunks: Seq<Seq<s::Mapping>>, stages: Seq<Seq<crate::keys::MappingV>>| #[trigger] full_w(f, l, table, mchunks, stages)
+}
+/// one more mapping entered into the trigger table
+proof fn lemma_tab_step(t0: Map<FromSet, Vec<usize>>, t1: Map<FromSet, Vec<usize>>, key: FromSet, vnew: Vec<usize>, ms: Seq<s::Mapping>, m: s::Mapping)
+  requires
+    //@ C13 | the trigger table is exact
+    tab_sound(t0, ms), forall|i: int| #[trigger] covered(t0, i) <==> 0 <= i < ms.len(), fs_of(m.from@, key.keys@),
+    t1 == t0.insert(key, vnew), ms.len() < usize::MAX,
+    vnew@ == (if t0.contains_key(key) { t0[key]@.push(ms.len() as usize) } else { seq![ms.len() as usize] }),
+  ensures tab_sound(t1, ms.push(m)), forall|i: int| #[trigger] covered(t1, i) <==> 0 <= i < ms.len() + 1
+{
+  let ms1 = ms.push(m); let n0 = ms.len() as int;
+  assert forall|k: FromSet, j: int| t1.contains_key(k) && 0 <= j < t1[k]@.len() implies (#[trigger] t1[k]@[j]) < ms1.len() && fs_of(ms1[t1[k]@[j] as int].from@, k.keys@) by {
+    if k == key {
+      if t0.contains_key(key) && j < t0[key]@.len() { assert(t1[k]@[j] == t0[key]@[j]); assert(t0[key]@[j] < ms.len()); assert(ms1[t0[key]@[j] as int] == ms[t0[key]@[j] as int]); }
+      else { assert(t1[k]@[j] == n0); assert(ms1[n0] == m); }
+    } else { assert(t1[k] == t0[k]); assert(t0[k]@[j] < ms.len()); assert(ms1[t0[k]@[j] as int] == ms[t0[k]@[j] as int]); }
+  }
+  assert forall|k: FromSet| #[trigger] t1.contains_key(k) implies t1[k]@.len() >= 1 by { if k != key { assert(t0.contains_key(k)); } }
+  assert forall|i: int| #[trigger] covered(t1, i) <==> 0 <= i < n0 + 1 by {
+    if covered(t1, i) {
+      let (k, j) = choose|k: FromSet, j: int| t1.contains_key(k) && 0 <= j < t1[k]@.len() && #[trigger] t1[k]@[j] == i;
+      if k == key {
+        if t0.contains_key(key) && j < t0[key]@.len() { assert(t0[key]@[j] == i); assert(covered(t0, i)); }
+      } else { assert(t0.contains_key(k)); assert(t0[k]@[j] == i); assert(covered(t0, i)); }
+    }
+    if 0 <= i < n0 {
+      assert(covered(t0, i));
+      let (k, j) = choose|k: FromSet, j: int| t0.contains_key(k) && 0 <= j < t0[k]@.len() && #[trigger] t0[k]@[j] == i;
+      if k == key { assert(t1[key]@[j] == i); } else { assert(t1[k]@[j] == i); }
+      assert(covered(t1, i));
+    }
+    if i == n0 { assert(t1[key]@[t1[key]@.len() - 1] == i); assert(covered(t1, i)); }
+  }
+}
+proof fn lemma_flatm_push(chunks: Seq<Seq<s::Mapping>>, c: Seq<s::Mapping>)
+  ensures flatm(chunks.push(c)) == flatm(chunks) + c
+{ assert(chunks.push(c).drop_last() =~= chunks); }
+proof fn lemma_expands_pairs(table: Map<String, Vec<&AliasMapping>>, fm: f::Mapping, ms: Seq<s::Mapping>)
+  requires expands(table, fm, ms)
+  ensures pairs_of(table, fm, fts(ms))
+{}
+
 //@ C13 C14 | default: fn convert
 #[verifier::exec_allows_no_decreases_clause]
 pub fn convert(f: &f::Layout) -> (r: Result<s::Layout, String>)
@@ -56,6 +123,8 @@ pub fn convert(f: &f::Layout) -> (r: Result<s::Layout, String>)
     r is Ok ==> crate::keys::layout_ok(r.unwrap()),
     //@ C13 | source order: the result is the expansion of each source mapping in source order, followed only by identity mappings added for repeat-only entries
     r is Ok ==> convert_shape(*f, r.unwrap()),
+    //@ C13 | the whole result: the first-pass expansion of every source mapping (trigger, output, repeat mode, absorbing list) in source order, then every repeat-only entry in source order sets the repeat mode of the first-pass mappings with the same trigger set, or adds an identity mapping if there is none
+    r is Ok ==> convert_full(*f, r.unwrap()),
 { //@ | body
   proof { axiom_fromset_key_model(); axiom_string_key_model(); assert(vstd::std_specs::hash::builds_valid_hashers::<std::collections::hash_map::RandomState>()); }
   broadcast use vstd::std_specs::hash::group_hash_axioms;
@@ -65,7 +134,9 @@ pub fn convert(f: &f::Layout) -> (r: Result<s::Layout, String>)
   let alias_mappings = find_alias_mappings(f);
   //@ C13 | the expansions of the source mappings handled so far
   let ghost mut chunks: Seq<Seq<(Seq<KeyCode>, Seq<KeyCode>)>> = Seq::empty(); let ghost table = alias_mappings@;
-  proof { assert(fts(res@) =~= Seq::empty()); }
+  let ghost mut mchunks: Seq<Seq<s::Mapping>> = Seq::empty();
+  proof { assert(fts(res@) =~= Seq::empty()); assert(res@ =~= flatm(mchunks));
+    assert forall|i: int| #[trigger] covered(from_table@, i) <==> 0 <= i < 0 by { if covered(from_table@, i) { let (k, j) = choose|k: FromSet, j: int| from_table@.contains_key(k) && 0 <= j < from_table@[k]@.len() && #[trigger] from_table@[k]@[j] == i; } } }
   
   for fm in itf: &f.mappings
     invariant alias_table_ok(alias_mappings@), table_ok(from_table@, res@.len() as int),
@@ -74,18 +145,24 @@ pub fn convert(f: &f::Layout) -> (r: Result<s::Layout, String>)
       table == alias_mappings@, itf.seq().len() == f.mappings@.len(), forall|j: int| 0 <= j < f.mappings@.len() ==> *itf.seq()[j] == f.mappings@[j],
       chunks.len() == itf.index@, forall|i: int| 0 <= i < chunks.len() ==> pairs_of(table, f.mappings@[i], #[trigger] chunks[i]),
       fts(res@) == flat(chunks),
+      mchunks.len() == itf.index@, forall|i: int| 0 <= i < mchunks.len() ==> expands(table, f.mappings@[i], #[trigger] mchunks[i]),
+      res@ == flatm(mchunks),
+      //@ C13 | the trigger table lists every mapping produced so far under the key of its trigger set
+      tab_sound(from_table@, res@), forall|i: int| #[trigger] covered(from_table@, i) <==> 0 <= i < res@.len(),
   { //@ | body
     //@ C13 | the source mapping of this iteration
     proof { assert(*fm == f.mappings@[itf.index@ as int]); }
     let sms = convert_mapping(&alias_mappings, fm)?;
     //@ C13 | its expansion
-    let ghost smsv = sms@; let ghost ft0 = fts(res@);
-    proof { assert(smsv.take(0) =~= Seq::empty()); assert(fts(smsv.take(0)) =~= Seq::empty()); assert(ft0 + fts(smsv.take(0)) =~= ft0); }
+    let ghost smsv = sms@; let ghost ft0 = fts(res@); let ghost rs0 = res@;
+    proof { assert(smsv.take(0) =~= Seq::empty()); assert(fts(smsv.take(0)) =~= Seq::empty()); assert(ft0 + fts(smsv.take(0)) =~= ft0); assert(rs0 + smsv.take(0) =~= rs0); }
     for sm in its: sms
       invariant alias_table_ok(alias_mappings@), table_ok(from_table@, res@.len() as int),
         vstd::std_specs::hash::obeys_key_model::<FromSet>(), vstd::std_specs::hash::builds_valid_hashers::<std::collections::hash_map::RandomState>(),
         //@ C13 | the mappings of this expansion are appended one by one, in order
-        its.seq() == smsv, fts(res@) == ft0 + fts(smsv.take(its.index@ as int)),
+        its.seq() == smsv, fts(res@) == ft0 + fts(smsv.take(its.index@ as int)), res@ == rs0 + smsv.take(its.index@ as int),
+        //@ C13 | the trigger table lists every mapping produced so far under the key of its trigger set
+        tab_sound(from_table@, res@), forall|i: int| #[trigger] covered(from_table@, i) <==> 0 <= i < res@.len(),
     { //@ | body
       //@ C13 | the mapping of this iteration
       let ghost smg = sm; let ghost res0 = res@; let ghost k = its.index@ as int;
@@ -93,41 +170,74 @@ pub fn convert(f: &f::Layout) -> (r: Result<s::Layout, String>)
       let ghost t0 = from_table@; let ghost n0 = res@.len() as int; let ghost mut vfin: Option<Vec<usize>> = None;
       let from_set = FromSet::new(&sm.from);
       match from_table.get_mut(&from_set) {
-        Some(v) => { let ghost v0 = v@; v.push(res.len()); proof { vfin = Some(*v); assert forall|j: int| 0 <= j < v@.len() implies (#[trigger] v@[j]) < n0 + 1 by { if j < v0.len() { assert(v@[j] == v0[j]); } } } },
+        Some(v) => { let ghost v0 = v@; proof { assert(t0.contains_key(from_set)); assert(t0[from_set]@ == v0); } v.push(res.len()); proof { vfin = Some(*v); assert(v@ == v0.push(n0 as usize)); assert forall|j: int| 0 <= j < v@.len() implies (#[trigger] v@[j]) < n0 + 1 by { if j < v0.len() { assert(v@[j] == v0[j]); } } } },
         None => {
           let v = vec![res.len()];
+          //@ C13 | a new table key
+          proof { vfin = Some(v); }
           from_table.insert(from_set.clone(), v);
         }
       };
+      //@ C13 | the key entered is the key looked up (the clone compares equal)
+      proof {
+        if !t0.contains_key(from_set) {
+          assert(exists|c: FromSet| c.kv() == from_set.kv() && from_table@ == t0.insert(c, vfin.unwrap()));
+          let c = choose|c: FromSet| c.kv() == from_set.kv() && from_table@ == t0.insert(c, vfin.unwrap());
+          axiom_fromset_ext(c, from_set);
+        }
+      }
       proof {
         if t0.contains_key(from_set) { crate::prelude_specs::axiom_borrowed_key_updated_deref::<FromSet, Vec<usize>>(t0, from_table@, &from_set, vfin.unwrap()); }
         assert forall|k: FromSet, j: int| from_table@.contains_key(k) && 0 <= j < from_table@[k]@.len() implies (#[trigger] from_table@[k]@[j]) < n0 + 1 by {
           if t0.contains_key(k) && from_table@[k] == t0[k] { assert(t0[k]@[j] < n0); }
         }
       }
+      //@ C13 | the table after this mapping
+      proof { if t0.contains_key(from_set) { assert(vfin.unwrap()@ == t0[from_set]@.push(n0 as usize)); } else { assert(vfin.unwrap()@ =~= seq![n0 as usize]); } }
+      proof { crate::prelude_specs::axiom_vec_len_isize(&res); lemma_tab_step(t0, from_table@, from_set, vfin.unwrap(), res0, smg); }
       res.push(sm);
       //@ C13 | appended
       proof { lemma_fts_push(res0, smg); assert(res@ == res0.push(smg)); assert(smsv.take(k + 1) =~= smsv.take(k).push(smg)); lemma_fts_push(smsv.take(k), smg);
-        assert(ft0 + fts(smsv.take(k)).push((smg.from@, smg.to@)) =~= (ft0 + fts(smsv.take(k))).push((smg.from@, smg.to@))); }
+        assert(ft0 + fts(smsv.take(k)).push((smg.from@, smg.to@)) =~= (ft0 + fts(smsv.take(k))).push((smg.from@, smg.to@)));
+        assert(rs0 + smsv.take(k).push(smg) =~= (rs0 + smsv.take(k)).push(smg)); }
     }
     //@ C13 | this source mapping is done
     proof { assert(smsv.take(smsv.len() as int) =~= smsv); let c2 = chunks.push(fts(smsv)); assert(c2.drop_last() =~= chunks); assert(c2.last() == fts(smsv));
       assert forall|i: int| 0 <= i < c2.len() implies pairs_of(table, f.mappings@[i], #[trigger] c2[i]) by { if i < chunks.len() { assert(c2[i] == chunks[i]); } }
-      chunks = c2; }
+      chunks = c2;
+      let m2 = mchunks.push(smsv); lemma_flatm_push(mchunks, smsv);
+      assert forall|i: int| 0 <= i < m2.len() implies expands(table, f.mappings@[i], #[trigger] m2[i]) by { if i < mchunks.len() { assert(m2[i] == mchunks[i]); } }
+      mchunks = m2; }
   }
   //@ C13 | all source mappings expanded; from here on triggers and outputs of these mappings do not change, only identity mappings are appended
   let ghost n_main = res@.len() as int; let ghost ft_main = fts(res@);
   proof { assert(fts(res@).take(n_main) =~= ft_main); }
+  //@ C13 | the repeat-only pass starts from the first-pass mappings; the trigger table describes exactly them
+  let ghost mut stages: Seq<Seq<crate::keys::MappingV>> = seq![mvs(res@)];
+  proof { assert(tab_dense(from_table@, n_main)); lemma_tab_n(from_table@, n_main); }
   
-  for fm in &f.mappings
+  for fm in itg: &f.mappings
     invariant alias_table_ok(alias_mappings@), table_ok(from_table@, res@.len() as int),
       //@ C13 | repeat-only entries leave triggers and outputs alone and append identity mappings only
       0 <= n_main <= res@.len(), fts(res@).take(n_main) == ft_main, forall|j: int| n_main <= j < res@.len() ==> (#[trigger] res@[j]).from@ == res@[j].to@,
+      //@ C13 | the repeat-only pass so far: one stage per source mapping handled
+      table == alias_mappings@, itg.seq().len() == f.mappings@.len(), forall|j: int| 0 <= j < f.mappings@.len() ==> *itg.seq()[j] == f.mappings@[j],
+      tab_sound(from_table@, res@), tab_dense(from_table@, n_main), tab_n(from_table@) == n_main,
+      stages.len() == itg.index@ + 1, stages[0] == mvs(flatm(mchunks)), flatm(mchunks).len() == n_main, stages.last() == mvs(res@),
+      forall|i: int| 0 <= i < itg.index@ ==> ar_rel(table, f.mappings@[i], n_main, #[trigger] stages[i], stages[i + 1]),
   { //@ | body
     //@ C13 | frame of one repeat-only pass
     let ghost r0 = res@;
+    proof { assert(*fm == f.mappings@[itg.index@ as int]); }
     adjust_repeats(&mut res, &from_table, &alias_mappings, fm)?;
     proof { lemma_frame_take(r0, res@, n_main); lemma_frame_id(r0, res@, n_main); }
+    //@ C13 | one more stage
+    proof { lemma_tab_frame(from_table@, r0, res@);
+      let st2 = stages.push(mvs(res@));
+      assert forall|i: int| 0 <= i < itg.index@ + 1 implies ar_rel(table, f.mappings@[i], n_main, #[trigger] st2[i], st2[i + 1]) by {
+        if i < itg.index@ { assert(st2[i] == stages[i]); assert(st2[i + 1] == stages[i + 1]); } else { assert(st2[i] == mvs(r0)); assert(st2[i + 1] == mvs(res@)); } }
+      assert(st2[0] == stages[0]);
+      stages = st2; }
   }
   
   for sm in it: &res
@@ -139,6 +249,8 @@ pub fn convert(f: &f::Layout) -> (r: Result<s::Layout, String>)
   }
   //@ C13 | the shape of the result
   proof { assert forall|l: s::Layout| l.mappings@ == res@ implies #[trigger] convert_shape(*f, l) by { assert(chunks.len() == f.mappings@.len()); assert(fts(l.mappings@).take(n_main) == flat(chunks)); assert(shape_w(*f, l, table, chunks, n_main)); } }
+  //@ C13 | the whole result
+  proof { assert forall|l: s::Layout| l.mappings@ == res@ implies #[trigger] convert_full(*f, l) by { assert(full_w(*f, l, table, mchunks, stages)); } }
   
   Ok(s::Layout {
     mappings: res
@@ -166,6 +278,109 @@ proof fn lemma_frame_id(o: Seq<s::Mapping>, n: Seq<s::Mapping>, k: int)
 {
   assert forall|j: int| k <= j < n.len() implies (#[trigger] n[j]).from@ == n[j].to@ by { if j < o.len() { assert(o[j].from@ == o[j].to@); assert(n[j].from@ == o[j].from@ && n[j].to@ == o[j].to@); } }
 }
+// ---- C13, the repeat-only pass: "set the repeat mode of the mappings with the same trigger set, or add an identity mapping if there is none" ----
+pub open spec fn mvs(ms: Seq<s::Mapping>) -> Seq<crate::keys::MappingV> { ms.map_values(|m: s::Mapping| crate::keys::mview(m)) }
+/// the trigger table: index i is listed (under some key)
+spec fn covered(t: Map<FromSet, Vec<usize>>, i: int) -> bool { exists|k: FromSet, j: int| t.contains_key(k) && 0 <= j < t[k]@.len() && #[trigger] t[k]@[j] == i }
+/// every index listed under a key is a mapping whose trigger has that table key; no key has an empty list
+spec fn tab_sound(t: Map<FromSet, Vec<usize>>, ms: Seq<s::Mapping>) -> bool {
+  (forall|k: FromSet, j: int| t.contains_key(k) && 0 <= j < t[k]@.len() ==> (#[trigger] t[k]@[j]) < ms.len() && fs_of(ms[t[k]@[j] as int].from@, k.keys@))
+  && (forall|k: FromSet| #[trigger] t.contains_key(k) ==> t[k]@.len() >= 1)
+}
+/// the table lists exactly the indices 0..n (the mappings of the first pass)
+spec fn tab_dense(t: Map<FromSet, Vec<usize>>, n: int) -> bool { n >= 0 && forall|i: int| #[trigger] covered(t, i) <==> 0 <= i < n }
+spec fn tab_n(t: Map<FromSet, Vec<usize>>) -> int { choose|n: int| tab_dense(t, n) }
+proof fn lemma_tab_n(t: Map<FromSet, Vec<usize>>, n: int)
+  requires tab_dense(t, n)
+  ensures tab_n(t) == n
+{
+  let m = tab_n(t);
+  assert(tab_dense(t, m));
+  if m < n { assert(covered(t, m)); } else if n < m { assert(covered(t, n)); }
+}
+/// one combination of a repeat-only entry, trigger `trig`, repeat mode `rep`: every mapping of the first pass (index < n) with the same trigger set gets
+/// that repeat mode; if there is none, an identity mapping with that repeat mode is appended
+pub open spec fn ar_step(v: Seq<crate::keys::MappingV>, n: int, trig: Seq<KeyCode>, rep: crate::keys::RepeatV) -> Seq<crate::keys::MappingV> {
+  if exists|i: int| 0 <= i < n && i < v.len() && same_trigger(#[trigger] v[i].from, trig) {
+    Seq::new(v.len(), |i: int| if i < n && same_trigger(v[i].from, trig) { crate::keys::MappingV { from: v[i].from, to: v[i].to, repeat: rep, absorbing: v[i].absorbing } } else { v[i] })
+  } else {
+    v.push(crate::keys::MappingV { from: trig, to: trig, repeat: rep, absorbing: Seq::empty() })
+  }
+}
+spec fn ro_trig(it: AliasCombinationIterable, t: Seq<usize>, single: f::RepeatOnlySingleMapping) -> Seq<KeyCode> { from_mods_spec(it, t, it.modifiers@.len() as int).push(single.from.key) }
+/// ... for the combinations `tuples` in order (None: an alias of the repeat keys does not occur on the trigger side, the converter rejects the layout)
+spec fn ar_fold(v: Seq<crate::keys::MappingV>, n: int, it: AliasCombinationIterable, tuples: Seq<Seq<usize>>, single: f::RepeatOnlySingleMapping) -> Option<Seq<crate::keys::MappingV>>
+  decreases tuples.len()
+{
+  if tuples.len() == 0 { Some(v) } else {
+    match ar_fold(v, n, it, tuples.drop_last(), single) {
+      None => None,
+      Some(v1) => match single_repeat_spec(it, tuples.last(), single.repeat) {
+        None => None,
+        Some(rep) => Some(ar_step(v1, n, ro_trig(it, tuples.last(), single), rep)) } }
+  }
+}
+/// what one source mapping does in the repeat-only pass
+spec fn ar_rel(table: Map<String, Vec<&AliasMapping>>, fm: f::Mapping, n: int, v0: Seq<crate::keys::MappingV>, v1: Seq<crate::keys::MappingV>) -> bool {
+  match fm {
+    f::Mapping::RepeatOnlySingle(single) => exists|it: AliasCombinationIterable| it.built(table, single.from.modifiers@) && #[trigger] ar_fold(v0, n, it, all_combos(it.q()), single) == Some(v1),
+    _ => v1 == v0,
+  }
+}
+/// the branch the code takes on a table hit does what ar_step says
+proof fn lemma_ar_hit(t: Map<FromSet, Vec<usize>>, n: int, r1: Seq<s::Mapping>, r2: Seq<s::Mapping>, trig: Seq<KeyCode>, fsk: FromSet, rep: crate::keys::RepeatV)
+  requires
+    //@ C13 | the trigger table is exact
+    tab_sound(t, r1), tab_dense(t, n), fs_of(trig, fsk.keys@), t.contains_key(fsk), r2.len() == r1.len(),
+    forall|x: int| 0 <= x < r1.len() ==> crate::keys::mview(#[trigger] r2[x]) == (if (exists|j: int| 0 <= j < t[fsk]@.len() && #[trigger] t[fsk]@[j] == x) { crate::keys::MappingV { from: r1[x].from@, to: r1[x].to@, repeat: rep, absorbing: r1[x].absorbing@ } } else { crate::keys::mview(r1[x]) }),
+  ensures mvs(r2) == ar_step(mvs(r1), n, trig, rep)
+{
+  let v = mvs(r1);
+  assert forall|x: int| 0 <= x < r1.len() implies ((x < n && same_trigger(v[x].from, trig)) <==> (exists|j: int| 0 <= j < t[fsk]@.len() && #[trigger] t[fsk]@[j] == x)) by {
+    if exists|j: int| 0 <= j < t[fsk]@.len() && #[trigger] t[fsk]@[j] == x {
+      let j = choose|j: int| 0 <= j < t[fsk]@.len() && #[trigger] t[fsk]@[j] == x;
+      assert(covered(t, x));
+      lemma_fs_same(r1[x].from@, fsk.keys@, trig, fsk.keys@);
+    }
+    if x < n && same_trigger(v[x].from, trig) {
+      assert(covered(t, x));
+      let (k, j) = choose|k: FromSet, j: int| t.contains_key(k) && 0 <= j < t[k]@.len() && #[trigger] t[k]@[j] == x;
+      lemma_fs_same(r1[x].from@, k.keys@, trig, fsk.keys@);
+      axiom_fromset_ext(k, fsk);
+    }
+  }
+  let x0 = t[fsk]@[0] as int;
+  assert(x0 < n && same_trigger(v[x0].from, trig));
+  assert(mvs(r2) =~= ar_step(v, n, trig, rep));
+}
+/// ... and on a table miss
+proof fn lemma_ar_miss(t: Map<FromSet, Vec<usize>>, n: int, r1: Seq<s::Mapping>, trig: Seq<KeyCode>, fsk: FromSet, rep: crate::keys::RepeatV, m: s::Mapping)
+  requires
+    //@ C13 | the trigger table is exact
+    tab_sound(t, r1), tab_dense(t, n), fs_of(trig, fsk.keys@), !t.contains_key(fsk),
+    crate::keys::mview(m) == (crate::keys::MappingV { from: trig, to: trig, repeat: rep, absorbing: Seq::empty() }),
+  ensures mvs(r1.push(m)) == ar_step(mvs(r1), n, trig, rep)
+{
+  let v = mvs(r1);
+  assert forall|x: int| 0 <= x < n && x < v.len() implies !same_trigger(#[trigger] v[x].from, trig) by {
+    if same_trigger(v[x].from, trig) {
+      assert(covered(t, x));
+      let (k, j) = choose|k: FromSet, j: int| t.contains_key(k) && 0 <= j < t[k]@.len() && #[trigger] t[k]@[j] == x;
+      lemma_fs_same(r1[x].from@, k.keys@, trig, fsk.keys@);
+      axiom_fromset_ext(k, fsk);
+    }
+  }
+  assert(mvs(r1.push(m)) =~= mvs(r1).push(crate::keys::mview(m)));
+}
+/// triggers unchanged => the table stays sound
+proof fn lemma_tab_frame(t: Map<FromSet, Vec<usize>>, o: Seq<s::Mapping>, n: Seq<s::Mapping>)
+  requires tab_sound(t, o), ar_frame(o, n)
+  ensures tab_sound(t, n)
+{
+  assert forall|k: FromSet, j: int| t.contains_key(k) && 0 <= j < t[k]@.len() implies (#[trigger] t[k]@[j]) < n.len() && fs_of(n[t[k]@[j] as int].from@, k.keys@) by {
+    let x = t[k]@[j] as int; assert(x < o.len()); assert(n[x].from@ == o[x].from@);
+  }
+}
 //@ C13 C14 | default: fn adjust_repeats
 #[verifier::exec_allows_no_decreases_clause]
 fn adjust_repeats<'a>(res: &mut Vec<s::Mapping>, from_table: &HashMap<FromSet, Vec<usize>>, alias_mappings: &'a HashMap<String, Vec<&'a f::AliasMapping>>, fm: &f::Mapping) -> (r: Result<(), String>)
@@ -173,18 +388,27 @@ fn adjust_repeats<'a>(res: &mut Vec<s::Mapping>, from_table: &HashMap<FromSet, V
     //@ C14 | data-structure invariants that keep every index in bounds (panic-freedom of the converter)
     alias_table_ok(alias_mappings@),
     table_ok(from_table@, old(res)@.len() as int),
+    //@ C13 | the trigger table lists the mappings of the first pass, each under the key of its trigger set
+    tab_sound(from_table@, old(res)@), tab_dense(from_table@, tab_n(from_table@)),
   ensures
     //@ C14 | data-structure invariants that keep every index in bounds (panic-freedom of the converter)
     final(res)@.len() >= old(res)@.len(),
     //@ C13 | a repeat-only entry changes only repeat modes of existing mappings and appends identity mappings
     ar_frame(old(res)@, final(res)@),
+    //@ C13 | repeat-only pass: for each combination, in order, the first-pass mappings with the same trigger set get the entry's repeat mode, or an identity mapping is added if there is none; other source mappings change nothing
+    r is Ok ==> ar_rel(alias_mappings@, *fm, tab_n(from_table@), mvs(old(res)@), mvs(final(res)@)),
   { //@ | body
   proof { axiom_fromset_key_model(); assert(vstd::std_specs::hash::builds_valid_hashers::<std::collections::hash_map::RandomState>()); }
   broadcast use vstd::std_specs::hash::group_hash_axioms;
+  //@ C13 | bookkeeping of the repeat-only pass
+  let ghost n = tab_n(from_table@); let ghost v0 = mvs(res@);
   match fm {
     f::Mapping::RepeatOnlySingle(single) => {
       let modifier_combinations = build_combinations(alias_mappings, &single.from.modifiers)?;
       let mut __it = iterate_combinations(&modifier_combinations);
+      //@ C13 | combinations handled so far
+      let ghost mut seen: Seq<Seq<usize>> = Seq::empty(); let ghost mc = modifier_combinations; let ghost all = all_combos(modifier_combinations.q());
+      proof { assert(all =~= seen + __it.rem()); }
       loop
         invariant
           //@ C14 | data-structure invariants that keep every index in bounds (panic-freedom of the converter)
@@ -196,10 +420,25 @@ fn adjust_repeats<'a>(res: &mut Vec<s::Mapping>, from_table: &HashMap<FromSet, V
           table_ok(from_table@, old(res)@.len() as int),
           vstd::std_specs::hash::obeys_key_model::<FromSet>(),
           vstd::std_specs::hash::builds_valid_hashers::<std::collections::hash_map::RandomState>(),
+          //@ C13 | the list so far is the fold of the combinations handled so far; handled + remaining = all
+          __it.itv() == mc, mc == modifier_combinations, all == seen + __it.rem(), all == all_combos(mc.q()), mc.built(alias_mappings@, single.from.modifiers@),
+          n == tab_n(from_table@), v0 == mvs(old(res)@), tab_sound(from_table@, res@), tab_dense(from_table@, n),
+          ar_fold(v0, n, mc, seen, *single) == Some(mvs(res@)),
+        ensures
+          //@ C13 | every combination has been handled
+          seen == all,
         { //@ | body
-        match __it.next() { None => { break; }, Some(modifier_combination) => {
+        //@ C13 | bookkeeping of the enumeration
+        let ghost rem0 = __it.rem();
+        match __it.next() { None => { proof { assert(rem0 =~= Seq::empty()); assert(__it.rem() =~= Seq::empty()); assert(seen + rem0 =~= seen); } break; }, Some(modifier_combination) => {
+        //@ C13 | the combination of this iteration
+        let ghost t = modifier_combination.tv(); let ghost r1 = res@;
+        proof { assert(rem0 == seq![t] + __it.rem()); assert(seen.push(t) + __it.rem() =~= seen + rem0); }
         let mut from = modifier_combination.from_modifiers().clone();
         from.push(single.from.key.clone());
+        //@ C13 | the trigger of this combination
+        let ghost trig = from@;
+        proof { assert(trig == ro_trig(mc, t, *single)); }
 
         let repeat = match &single.repeat {
           f::SingleRepeat::Normal => s::Repeat::Normal,
@@ -210,9 +449,14 @@ fn adjust_repeats<'a>(res: &mut Vec<s::Mapping>, from_table: &HashMap<FromSet, V
             interval_ms: *interval_ms
           }
         };
+        //@ C13 | the repeat mode of this combination
+        let ghost rep = crate::keys::rview(repeat);
+        proof { assert(single_repeat_spec(mc, t, single.repeat) == Some(rep)); }
 
         let from_set = FromSet::new(&from);
         if let Some(is) = from_table.get(&from_set) {
+          //@ C13 | table hit: exactly the first-pass mappings with the same trigger set are listed
+          proof { assert(from_table@.contains_key(from_set)); assert(*is == from_table@[from_set]); }
           for i in it2: is
             invariant
               //@ C14 | data-structure invariants that keep every index in bounds (panic-freedom of the converter)
@@ -223,34 +467,116 @@ fn adjust_repeats<'a>(res: &mut Vec<s::Mapping>, from_table: &HashMap<FromSet, V
               it2.seq().len() == is@.len(),
               forall|j: int| 0 <= j < is@.len() ==> *it2.seq()[j] == is@[j],
               forall|j: int| 0 <= j < is@.len() ==> (#[trigger] is@[j]) < old(res)@.len(),
+              //@ C13 | the listed mappings handled so far have the new repeat mode, nothing else has changed
+              res@.len() == r1.len(), rep == crate::keys::rview(repeat),
+              forall|x: int| 0 <= x < r1.len() ==> crate::keys::mview(#[trigger] res@[x]) == (if (exists|j: int| 0 <= j < it2.index@ && #[trigger] is@[j] == x) { crate::keys::MappingV { from: r1[x].from@, to: r1[x].to@, repeat: rep, absorbing: r1[x].absorbing@ } } else { crate::keys::mview(r1[x]) }),
             { //@ | body
             proof { assert(*i == is@[it2.index@ as int]); }
+            //@ C13 | one more listed mapping
+            let ghost rb = res@; let ghost idx = it2.index@ as int;
             let sm = &mut res[*i];
             sm.repeat = repeat.clone();
+            proof {
+              assert forall|x: int| 0 <= x < r1.len() implies crate::keys::mview(#[trigger] res@[x]) == (if (exists|j: int| 0 <= j < idx + 1 && #[trigger] is@[j] == x) { crate::keys::MappingV { from: r1[x].from@, to: r1[x].to@, repeat: rep, absorbing: r1[x].absorbing@ } } else { crate::keys::mview(r1[x]) }) by {
+                if x == is@[idx] as int { assert(is@[idx] == x); }
+                else {
+                  assert(res@[x] == rb[x]);
+                  if exists|j: int| 0 <= j < idx + 1 && #[trigger] is@[j] == x { let j = choose|j: int| 0 <= j < idx + 1 && #[trigger] is@[j] == x; assert(j < idx); }
+                }
+              }
+            }
           }
+          //@ C13 | this combination is done (hit)
+          proof { lemma_ar_hit(from_table@, n, r1, res@, trig, from_set, rep); }
         }
         else {
+          //@ C13 | table miss: no first-pass mapping has this trigger set; an identity mapping is appended
+          proof { assert(!from_table@.contains_key(from_set)); }
           res.push(s::Mapping { from: from.clone(), to: from, repeat, absorbing: vec![] });
+          proof { lemma_ar_miss(from_table@, n, r1, trig, from_set, rep, res@.last()); assert(res@ == r1.push(res@.last())); }
         }
+        //@ C13 | one more combination handled
+        proof {
+          lemma_tab_frame(from_table@, old(res)@, res@);
+          let s2 = seen.push(t); assert(s2.drop_last() =~= seen); assert(s2.last() == t);
+          seen = s2; }
               } }
       }
+      //@ C13 | the whole entry
+      proof { assert(ar_fold(v0, n, mc, all_combos(mc.q()), *single) == Some(mvs(res@))); }
     },
     _ => ()
   };
   Ok(())
 }
 
-#[derive(PartialEq, Eq, Hash, Clone)]
+#[derive(PartialEq, Eq, Hash)]
 struct FromSet {
   keys: Vec<KeyCode>
 }
-//@ C14 | default: impl FromSet
+// E2': rustc's derive(Clone) on FromSet, written out field-wise
+impl Clone for FromSet {
+  fn clone(&self) -> (r: Self)
+    ensures r.kv() == self.kv()
+  {
+    FromSet { keys: self.keys.clone() }
+  }
+}
+/// C13 "the same trigger set": the same final key and the same modifiers in any order
+pub open spec fn same_trigger(a: Seq<KeyCode>, b: Seq<KeyCode>) -> bool {
+  (a.len() == 0 && b.len() == 0)
+  || (a.len() > 0 && b.len() > 0 && a.last() == b.last() && a.drop_last().to_multiset() == b.drop_last().to_multiset())
+}
+/// what FromSet::new makes of a trigger: the modifiers in ascending order, then the final key
+pub open spec fn fs_of(k: Seq<KeyCode>, r: Seq<KeyCode>) -> bool {
+  if k.len() == 0 { r.len() == 0 } else {
+    r.len() == k.len() && r.last() == k.last() && vstd::relations::sorted_by(r.drop_last(), crate::prelude_specs::ord_leq_fn::<KeyCode>())
+    && r.drop_last().to_multiset() == k.drop_last().to_multiset() }
+}
+/// two triggers get the same table key exactly when they are the same trigger set
+proof fn lemma_fs_same(a: Seq<KeyCode>, ra: Seq<KeyCode>, b: Seq<KeyCode>, rb: Seq<KeyCode>)
+  requires fs_of(a, ra), fs_of(b, rb)
+  ensures (ra == rb) == same_trigger(a, b)
+{
+  crate::prelude_specs::axiom_keycode_total_order();
+  if same_trigger(a, b) {
+    if a.len() > 0 {
+      vstd::seq_lib::lemma_sorted_unique(ra.drop_last(), rb.drop_last(), crate::prelude_specs::ord_leq_fn::<KeyCode>());
+      assert(ra =~= ra.drop_last().push(ra.last())); assert(rb =~= rb.drop_last().push(rb.last()));
+    } else { assert(ra =~= rb); }
+  } else if ra == rb {
+    if a.len() == 0 { assert(rb.len() == 0); assert(b.len() == 0); }
+    else { assert(b.len() > 0); }
+  }
+}
+/// the table key as a value: FromSet compares (derived Eq / Hash) by the contents of `keys`  (ASSUMED with the key model)
+#[verifier::external_body]
+proof fn axiom_fromset_ext(a: FromSet, b: FromSet)
+  ensures (a == b) == (a.keys@ == b.keys@)
+{}
+//@ C13 C14 | default: impl FromSet
 impl FromSet {
-  fn new(keys: &[KeyCode]) -> FromSet {
+  pub closed spec fn kv(self) -> Seq<KeyCode> { self.keys@ }
+  fn new(keys: &[KeyCode]) -> (r: FromSet)
+    ensures
+      //@ C13 | the table key of a trigger: its modifiers in ascending order, then its final key (so: same key iff same trigger set)
+      fs_of(keys@, r.keys@),
+  { //@ | body
     if !keys.is_empty() {
-      let mut res: Vec<KeyCode> = keys[..keys.len()-1].iter().map(|k| *k).collect();
+      let mut res: Vec<KeyCode> = { let __s = &keys[..keys.len()-1]; let mut __v = Vec::new(); let mut __j: usize = 0; while __j < __s.len()
+        invariant
+          //@ C13 | the copy of the modifiers
+          __s@ == keys@.drop_last(), __j <= __s.len(), __v@ == __s@.take(__j as int),
+        decreases __s.len() - __j,
+        { //@ | body
+        let k = &__s[__j]; __v.push(*k); __j += 1;
+        proof { assert(__s@.take(__j as int) =~= __s@.take(__j as int - 1).push(*k)); }
+        } __v };
+      proof { assert(res@ =~= keys@.drop_last()); }
       res.sort();
+      let ghost srt = res@;
       res.push(*keys.last().unwrap());
+      proof { assert(res@.drop_last() =~= srt); }
       FromSet { keys: res }
     }
     else {
@@ -267,6 +593,8 @@ fn convert_mapping<'a>(alias_mappings: &HashMap<String, Vec<&'a f::AliasMapping>
   ensures
     //@ C13 | each kind of source mapping converts to the pairs it stands for
     match r { Ok(v) => pairs_of(alias_mappings@, *m, fts(v@)), Err(_) => true },
+    //@ C13 | ... with the repeat mode and the absorbing list the statement prescribes
+    match r { Ok(v) => expands(alias_mappings@, *m, v@), Err(_) => true },
   { //@ | body
   match m {
     f::Mapping::Alias(alias) => Ok(convert_alias(alias)),
@@ -281,6 +609,8 @@ fn convert_alias(alias: &f::AliasMapping) -> (r: Vec<s::Mapping>)
   ensures
     //@ C13 | an alias definition is itself a mapping from its keys to its extra output keys, unless it is a lone modifier
     fts(r@) == (if alias.from.keys@.len() == 1 && is_modifier_spec(alias.from.keys@[0]) { Seq::<(Seq<KeyCode>, Seq<KeyCode>)>::empty() } else { seq![(alias.from.keys@, alias.to.initial@)] }),
+    //@ C13 | ... with normal repeat and nothing absorbed
+    forall|i: int| 0 <= i < r@.len() ==> crate::keys::rview((#[trigger] r@[i]).repeat) == crate::keys::RepeatV::Normal && r@[i].absorbing@.len() == 0,
   { //@ | body
   // This test tries to be clever about whethere the user
   // expects modifiers to pass-through.
